@@ -167,6 +167,8 @@ pub struct FunCfg {
     pub shadow_pct: u32,
     pub type_instances: usize,
     pub divrem_pct: u32,
+    /// effects (print, calls of effectful definitions) inside operator operands and call/constructor arguments of integer or data type: evaluated left to right
+    pub eff_args_pct: u32,
 }
 
 impl FunCfg {
@@ -183,6 +185,7 @@ impl FunCfg {
             shadow_pct: [0, 0, 30, 80][rng.below(4)],
             type_instances: 1 + rng.below(4),
             divrem_pct: [0, 10, 25][rng.below(3)],
+            eff_args_pct: [0, 0, 20, 50][rng.below(4)],
         }
     }
 }
@@ -281,11 +284,16 @@ impl<'a> G<'a> {
                     let mut op = *self.rng.pick(&[Op::Add, Op::Sub, Op::Mul, Op::Add, Op::Sub]);
                     let b = if self.rng.pct(self.cfg.divrem_pct) {
                         op = if self.rng.pct(50) { Op::Div } else { Op::Rem };
-                        let mut d = self.lit();
-                        if d == 0 || d == -1 {
-                            d = 7;
+                        if !vars.is_empty() && self.rng.pct(40) {
+                            // a variable divisor (runs with a zero divisor are discarded); prefer the first parameter
+                            E::Var(if self.rng.pct(50) { vars[0] } else { *self.rng.pick(&vars) })
+                        } else {
+                            let mut d = self.lit();
+                            if d == 0 || d == -1 {
+                                d = 7;
+                            }
+                            E::Lit(d)
                         }
-                        E::Lit(d)
                     } else {
                         self.pure(&T::I, sc, depth + 1)
                     };
@@ -326,7 +334,7 @@ impl<'a> G<'a> {
             T::D(n, args) => {
                 let d = self.decl(n);
                 let k = self.rng.below(100);
-                if !vars.is_empty() && (k < 40 || small && k < 85) {
+                if !vars.is_empty() && (k < 55 || small && k < 90) {
                     return E::Var(*self.rng.pick(&vars));
                 }
                 if d.codata {
@@ -496,6 +504,8 @@ impl<'a> G<'a> {
             } else if k == 0 {
                 // the counter: a small literal
                 es.push(E::Lit(self.rng.range(0, 6)));
+            } else if !pure_only && !self.is_codata(pt) && self.rng.pct(self.cfg.eff_args_pct) {
+                es.push(self.eff(pt, sc, depth + 2));
             } else {
                 es.push(self.pure(pt, sc, depth + 1));
             }
@@ -515,6 +525,28 @@ impl<'a> G<'a> {
             let a = if !ints.is_empty() && self.rng.pct(60) { E::Var(*self.rng.pick(&ints)) } else { self.pure(&T::I, sc, depth + 2) };
             let next = self.eff(t, sc, depth + 1);
             return E::Print(self.rng.pct(50), Box::new(a), Box::new(next));
+        }
+        if self.rng.pct(self.cfg.eff_args_pct) {
+            // effects inside operands / arguments: evaluated innermost first, left to right
+            match t {
+                T::I => {
+                    let a = self.eff(&T::I, sc, depth + 2);
+                    let b = self.eff(&T::I, sc, depth + 2);
+                    let op = *self.rng.pick(&[Op::Add, Op::Sub, Op::Mul]);
+                    return E::Op(Box::new(a), op, Box::new(b));
+                }
+                T::D(n, args) if !self.is_codata(t) => {
+                    let d = self.decl(n);
+                    let x = d.xtors[self.rng.below(d.xtors.len())].clone();
+                    let mut es = Vec::new();
+                    for a in &x.1 {
+                        let at = inst(a, args);
+                        if self.is_codata(&at) { es.push(self.pure(&at, sc, depth + 2)) } else { es.push(self.eff(&at, sc, depth + 2)) }
+                    }
+                    return E::Ctor(x.0.to_string(), es);
+                }
+                _ => {}
+            }
         }
         let k = self.rng.below(100);
         if k < 30 || self.cfg.many_live && k < 55 {
@@ -700,12 +732,11 @@ impl Namer {
         }
         // prefer a name that is visible (bound outside) but not referenced inside: real shadowing
         let vis: Vec<&str> = allowed.iter().copied().filter(|n| visible.iter().any(|v| self.names.get(v).map(|s| s == n).unwrap_or(false))).collect();
-        let n = if !vis.is_empty() && rng.pct(70) {
+        let n = if !vis.is_empty() && rng.pct(70) { vis[rng.below(vis.len())] } else { allowed[rng.below(allowed.len())] };
+        // the name of any visible binder (variable or covariable) is reused: shadowing
+        if visible.iter().any(|v| self.names.get(v).map(|s| s == n).unwrap_or(false)) {
             *shadowed = true;
-            vis[rng.below(vis.len())]
-        } else {
-            allowed[rng.below(allowed.len())]
-        };
+        }
         self.names.insert(id, n.to_string());
     }
 }
@@ -872,9 +903,22 @@ pub fn generate(rng: &mut Rng, cfg: &FunCfg) -> FunProg {
         let pure = g.rng.pct(55);
         let mut params = vec![(g.fresh(), T::I, false)];
         let np = g.rng.below(if cfg.many_live { 7 } else { 4 });
-        for _ in 0..np {
-            let t = g.random_type(true, 0);
-            params.push((g.fresh(), t, false));
+        if g.rng.pct(30) {
+            // several parameters of one data type: callers tend to pass the same variables repeatedly
+            let t = loop {
+                let t = g.random_type(false, 0);
+                if t != T::I {
+                    break t;
+                }
+            };
+            for _ in 0..4 + g.rng.below(3) {
+                params.push((g.fresh(), t.clone(), false));
+            }
+        } else {
+            for _ in 0..np {
+                let t = g.random_type(true, 0);
+                params.push((g.fresh(), t, false));
+            }
         }
         if !pure && g.rng.pct(cfg.label_pct) {
             params.push((g.fresh(), T::I, true));
